@@ -336,16 +336,6 @@ def run(chk, replay_spec=None):
         broken.append("the translator of the queue functions failed: " + gq)
     if not ok:
         broken.append("obligations over the regenerated queue model no longer check: " + log[-1500:])
-    if broken:
-        diff = ""
-        try:
-            a = open(os.path.join(gen.REF_DIR, "GenQueue.v")).read().split("\n")
-            b = open(os.path.join(gen.GEN_DIR, "GenQueue.v")).read().split("\n")
-            diff = "\n".join(difflib.unified_diff(a, b, "Gen.ref/GenQueue.v", "gen/GenQueue.v", lineterm=""))
-        except OSError:
-            pass
-        chk.violation("proof", "C18 " + " ; ".join(broken)[:1200] + ("\nmodel diff:\n" + diff[:1500] if diff else ""),
-                      {"theorems": PROPS, "log": log[-4000:], "generated": st, "model_diff": diff[:6000]}, found_input=False)
     chk.note(queue_model=dict(put=info["put"], get=info["get"], slots=info["slots"][0], unused0=info["unused0"][0],
                               finish_releases=info["fin_n"][0], max_threads=info["max_threads"][0]) if info else gq)
     names = info or DEFAULT_NAMES
@@ -367,6 +357,25 @@ def run(chk, replay_spec=None):
             chk.violation("model-build", "the queue model cannot be extracted: " + str(e)[-600:], {"error": str(e)[-3000:]},
                           found_input=False)
 
+    if broken:
+        diff = ""
+        try:
+            a = open(os.path.join(gen.REF_DIR, "GenQueue.v")).read().split("\n")
+            b = open(os.path.join(gen.GEN_DIR, "GenQueue.v")).read().split("\n")
+            diff = "\n".join(difflib.unified_diff(a, b, "Gen.ref/GenQueue.v", "gen/GenQueue.v", lineterm=""))
+        except OSError:
+            pass
+        # what does the model of the changed code do?  random walks looking for a deadlock or a lost/duplicated file
+        cex = []
+        if model and info:
+            for n in (1, 2, 3, info["max_threads"][0]):
+                lines, _ = vlib.run_lines(model, ["qexplore %d %d %d %d" % (slots + 5, n, chk.rng.below(1 << 30), 30)], timeout=120)
+                if lines and lines[0].startswith("found"):
+                    cex.append("%d files, %d threads: %s" % (slots + 5, n, lines[0][:4000]))
+        chk.violation("proof", "C18 " + " ; ".join(broken)[:1200] + ("\nmodel diff:\n" + diff[:1500] if diff else "")
+                      + ("\nthe model of the changed code has a bad run: " + cex[0][:300] if cex else ""),
+                      {"theorems": PROPS, "log": log[-4000:], "generated": st, "model_diff": diff[:6000],
+                       "model_counterexamples": cex}, found_input=False)
     tmp = tempfile.mkdtemp(prefix="verif-c18.", dir=build.scratch_root())
     try:
         # private copies: the build cache is pruned by concurrent checks of other trees
@@ -479,7 +488,7 @@ def _run_all(chk, quick, tmp, yara, yarac, shim, model, slots, info, replay_spec
             # the trace against the model
             if model and evs:
                 endtok = "END" if fin.startswith("END") else ("DEADLOCK" if fin.startswith("DEADLOCK") else "")
-                lines, merr = vlib.run_lines(model, ["qreplay %d %d %s %s" % (len(order), n, " ".join(evs), endtok)], timeout=300)
+                lines, merr = vlib.run_lines(model, ["qreplay %d %d %s %s" % (max(nfiles, len(order)), n, " ".join(evs), endtok)], timeout=300)
                 res = lines[0] if lines else "no answer " + merr[:200]
                 shim_steps += len(evs)
                 if res.startswith("ok "):
@@ -520,7 +529,7 @@ def _run_all(chk, quick, tmp, yara, yarac, shim, model, slots, info, replay_spec
         cm = "-c" in o
         want, errs = base.get(["-w"] + o, cm)
         for r in range(reps):
-            if n in hung:
+            if n in hung or len(hung) >= 3:
                 continue
             args = ["-p", str(n), "-r", "-w"] + o + rules_src + [root]
             rc, out, err = sh([yara] + args, timeout=HANG_S)
@@ -554,9 +563,16 @@ def _run_all(chk, quick, tmp, yara, yarac, shim, model, slots, info, replay_spec
             continue
         rc, out, err = sh([yara, "-p", str(n), "-r", "-s", rc_path, root], timeout=HANG_S)
         evals += 1
-        if sorted(out.split("\n")[:-1]) != sorted(wantl):
-            chk.violation("output:console", "yara -p %d -s with console.log: the multiset of lines differs from the single-file runs"
-                          % n, tree_replay({"kind": "blackbox", "args": ["-p", str(n), "-r", "-s", "<console rules>", "<tree>"]}))
+        gotl = out.split("\n")[:-1]
+        if sorted(gotl) != sorted(wantl):
+            ws = set(wantl)
+            torn = [l for l in gotl if l not in ws][:4]
+            chk.violation("output:console", "yara -p %d -s with a rule calling console.log: lines are torn, e.g. %r (never printed by the "
+                          "single-file runs).  CALLBACK_MSG_CONSOLE_LOG prints without taking output_mutex, so the log line lands "
+                          "inside a match line that another thread is printing piecewise" % (n, torn),
+                          tree_replay({"kind": "blackbox", "args": ["-p", str(n), "-r", "-s", "<console rules>", "<tree>"],
+                                       "rules": 'import "console" rule logs { strings: $a = "hello" condition: console.log("n=", #a) and $a }',
+                                       "torn_lines": torn}))
 
     # ---------------------------------------------------------------- -l: limit and the unsynchronised counter
     for lim in (1, 3):
@@ -583,6 +599,30 @@ def _run_all(chk, quick, tmp, yara, yarac, shim, model, slots, info, replay_spec
                           tree_replay({"kind": "blackbox", "args": ["-p", str(first[0]), "-r", "-w", "-l", str(lim), "<rules>", "<tree>"],
                                        "expected_lines": nwant, "observed": sorted(set(counts)), "problems": first[1][:3]}))
 
+    # ---------------------------------------------------------------- data races (thorough tier: ThreadSanitizer build of the CLI)
+    if not quick:
+        try:
+            ytsan = build.harness("h_c18_yara", "tsan", link_cli=["yara", "args", "common", "threading"])
+            yt = os.path.join(tmp, "yara_tsan")
+            shutil.copy2(ytsan, yt)
+            races = {}
+            for n, o in ((8, []), (32, ["-s"]), (4, ["-l", "1000"]), (16, ["-c"])):
+                rc, out, err = sh([yt, "-p", str(n), "-r", "-w"] + o + rules_src + [root], timeout=600,
+                                  env=dict(os.environ, TSAN_OPTIONS="halt_on_error=0 report_signal_unsafe=0 exitcode=0"))
+                evals += 1
+                for rep_txt in err.split("WARNING: ThreadSanitizer: ")[1:]:
+                    g = re.search(r"Location is global '([^']+)'", rep_txt)
+                    sm = re.search(r"SUMMARY: ThreadSanitizer: data race (\S+?):(\d+) in (\S+)", rep_txt)
+                    where = g.group(1) if g else (os.path.basename(sm.group(1)) + ":" + sm.group(3) if sm else "unknown")
+                    races.setdefault(where, (n, o, rep_txt[:1500]))
+            chk.note(tsan_runs=4, tsan_races=sorted(races))
+            for where, (n, o, txt) in races.items():
+                chk.violation("race:" + where, "ThreadSanitizer: data race on %s in yara -p %d %s (scanning threads of the CLI): %s"
+                              % (where, n, " ".join(o), " ".join(txt.split())[:500]),
+                              tree_replay({"kind": "tsan", "args": ["-p", str(n), "-r", "-w"] + o + ["<rules>", "<tree>"], "report": txt}))
+        except build.BuildError as e:
+            chk.note(tsan="not built: " + str(e)[-300:])
+
     # ---------------------------------------------------------------- source vs compiled rules, externals at either stage
     yc1, yc2 = os.path.join(tmp, "r1.yarc"), os.path.join(tmp, "r2.yarc")
     rcs = []
@@ -599,11 +639,13 @@ def _run_all(chk, quick, tmp, yara, yarac, shim, model, slots, info, replay_spec
             want, _ = base.get(["-w"] + o, cm)
             for n in ((1, 7) if quick else (1, 4, 32)):
                 for fname, fargs in forms[1:]:
-                    if n in hung:
+                    if n in hung or len(hung) >= 3:
                         continue
                     rc, out, err = sh([yara, "-p", str(n), "-r", "-w"] + o + fargs + [root], timeout=HANG_S)
                     evals += 1
                     distinct.add(("form", fname, name, n))
+                    if rc == "timeout":
+                        hung.add(n)
                     probs = compare_dir_run(out, want, root, files, cm) if rc != "timeout" else [("hang", "does not terminate")]
                     if probs or rc != 0:
                         chk.violation("compiled:" + (probs[0][0] if probs else "exit"), "scanning with rules pre-compiled by yarac (%s) "
